@@ -183,6 +183,9 @@ def g1(ctx):
         if name == "proven_contains" and "explanations" not in (ctx.cur_cfg or ""):
             continue
         b = fn(crate, name, GRP if name not in ("build_ot", "schreiers_lemma") else None)
+        # (a sifting step extracted into a helper of the chain layer — `Next::sift(p) -> Option<(&P, Perm)>` — is looked through;
+        #  the functions of the table themselves stay calls)
+        b = mir.inline_view(crate, b, keep=tuple(TABLE) + ("new", "add_set", "build_ot", "schreiers_lemma", "find_lowest_nonstab"))
         cs = composes(b)
         got = []
         for c in cs:
@@ -219,7 +222,8 @@ def g1(ctx):
     for name in ("contains", "proven_contains"):
         if name == "proven_contains" and "explanations" not in (ctx.cur_cfg or ""):
             continue
-        b = fn(crate, name, GRP)
+        b0_ = fn(crate, name, GRP)
+        b = mir.inline_view(crate, b0_, keep=tuple(TABLE) + ("new", "add_set", "build_ot", "schreiers_lemma", "find_lowest_nonstab"))
         gets = [c for c in b.calls if c.callee and c.callee.name == "get" and "HashMap<slot::Slot" in optype(b, c.args[0]) and not b.blocks[c.bb]["cleanup"]]
         ctx.floor("orbit-table lookups in " + name, len(gets), 1)
         for c in gets:
@@ -227,10 +231,16 @@ def g1(ctx):
             ok = k[0] == "call" and k[1] == "index" and kind_of(crate, b, k[3][0]) == ("P",) and role_mentions_field(k[3][1], "stab")
             ctx.check(ok, "sift-key:" + name, "%s looks up ot[p[stab]]" % name, "%s looks up the orbit table with %s instead of p[stab]" % (name, role_str(k)), where_of(b, c.bb))
         # recursion goes to the stabiliser sub-group with the sifted permutation
-        rec = [c for c in b.calls if c.callee and c.callee.target == b.id]
+        rec = [c for c in b.calls if c.callee and c.callee.target == b0_.id]
         for c in rec:
             r0 = b.role_of_operand(c.args[0])
             r1 = strip_role(b.role_of_operand(c.args[1]))
+            if isinstance(r1, tuple) and r1[0] == "phi":
+                # (the sifted permutation handed back by a helper as part of `Some((part, residue))`: the None alternative of the
+                #  join never reaches the recursion)
+                alts = [strip_role(x) for x in r1[1] if not (isinstance(strip_role(x), tuple) and strip_role(x)[0] in ("variant", "field") and "from_residual" in role_str(x))]
+                if len(alts) == 1:
+                    r1 = alts[0]
             ok = role_mentions_field(r0, "g") and r1[0] == "call" and r1[1] == "compose"
             ctx.check(ok, "sift-recursion:" + name, "%s recurses into next.g with the sifted permutation" % name,
                       "%s recurses with receiver %s and argument %s" % (name, role_str(r0), role_str(r1)), where_of(b, c.bb))
